@@ -59,6 +59,10 @@ def configs(tier):
     for fn in ("lookup_id", "match", "bincount", "bincount_ids", "Matcher"):
         for v in (0, 1, 2, 4):
             out.append(("htm", fn, v))
+    # the C++ text writer of records.cpp (string fields) reading the caller's buffer through mData
+    out.append(("cxx_textwrite", 1))
+    if tier != "quick":
+        out.append(("cxx_textwrite", 2))
     return out
 
 
@@ -120,8 +124,55 @@ def _guard(cx, what, thunk, allow=(ValueError,)):
     return True
 
 
+class _FrozenBytes(object):
+    """the caller's array memory seen from C++: loads only"""
+
+    def __init__(self, cells):
+        self.cells = cells
+        self.name = "array data (caller-owned)"
+
+    def size(self):
+        return len(self.cells)
+
+    def load(self, i):
+        return self.cells[i]
+
+    def store(self, i, v):
+        raise FrozenWrite("store into the caller's array memory")
+
+
+def harness_cxx_textwrite(cx, cfg):
+    """Records::WriteRows (records.cpp, interpreted from clang's AST) on a table of two string fields with
+    symbolic bytes, for every ignorenull / padnull setting: the row bytes are only read"""
+    from props import recxx
+    from vf import castxx
+    from vf.cast import Ptr, CError
+    nrows = cfg[1]
+    sizes = [3, 2]
+    cells = [cx.int("b%d" % i, 0, 127) for i in range(nrows * sum(sizes))]
+    before = list(cells)
+    region = _FrozenBytes(cells)
+    f = castxx.CFile([], pos=0)
+    ign, pad = cx.flag("ignorenull"), cx.flag("padnull")
+    I = recxx.interp({"mFptr": f, "mAction": recxx.WRITE, "mFileType": 1, "mNrows": nrows, "mNfields": 2, "mNel": [1, 1], "mSizes": list(sizes),
+                      "mTypeNums": [18, 18], "mNdim": [0, 0], "mBracketArrays": False, "mDelim": castxx.CppString.of(","),
+                      "mIgnoreNull": ign, "mPadNull": pad, "mData": Ptr(region, 0), "mRowSize": sum(sizes)})
+    try:
+        I.method("WriteRows")
+    except FrozenWrite:
+        cx.fail("Records::WriteRows (text) wrote into the array passed to it")
+        return
+    except CError as e:
+        cx.fail("Records::WriteRows (text) raised / has undefined behaviour: %s" % (e,))
+        return
+    cx.check("Records::WriteRows (text) leaves the caller's array memory untouched", all(a is b for a, b in zip(region.cells, before)))
+    cx.check("Records::WriteRows (text) ends with the newline of the last row", len(f.cells) > 0 and not is_sym(f.cells[-1]) and f.cells[-1] == 10)
+
+
 def harness(cx, cfg):
     fam = cfg[0]
+    if fam == "cxx_textwrite":
+        return harness_cxx_textwrite(cx, cfg)
     if fam == "recwrite":
         _, delim, order, how = cfg
         vfs = recmodel.VFS()
@@ -456,6 +507,26 @@ def replay(cand):
             return r or no
         finally:
             shutil.rmtree(d, ignore_errors=True)
+    if fam == "cxx_textwrite":
+        d = tempfile.mkdtemp(prefix="c15-")
+        try:
+            t = np.zeros(3, dtype=[("s", "S3"), ("u", "S2")])
+            t["s"] = [b"a", b"bc", b""]
+            t["u"] = [b"", b"x", b"yz"]
+            for padnull in (True, False):
+                for ignorenull in (True, False):
+                    fn = os.path.join(d, "w_%s_%s.rec" % (padnull, ignorenull))
+
+                    def call():
+                        with recfile.Recfile(fn, mode="w", delim=",", padnull=padnull, ignorenull=ignorenull) as r:
+                            r.write(t)
+                    r = trial("Recfile.write (text, padnull=%s, ignorenull=%s) of a table with short strings" % (padnull, ignorenull),
+                              "recwrite:text:cxx-strings", [("table", t)], call, allow=())
+                    if r:
+                        return r
+            return no
+        finally:
+            shutil.rmtree(d, ignore_errors=True)
     V = _variants_real()
     if fam == "numpy_util":
         fn = cfg[1]
@@ -573,5 +644,5 @@ MANIFEST_ENTRY = {
     "engine": "symx+cast",
     "technique": "write monitor inside the symbolic executors (symx/z3 for the Python sources, cast for the interpreted C wrappers): every buffer reachable from an argument is frozen and each store through any alias, view, out=, augmented assignment, byteswap(True), dtype assignment or C pointer is checked on every feasible path, with the argument's dtype class, byte order, layout and dimensionality and the path-selecting options as forked choices; candidates are replayed on real arrays of every variant comparing bytes, dtype and strides before and after",
     "text": "On every feasible path of the listed functions (record-file writes text/binary, match/unique/rem_dup/splitarray, histogram/Binner with weights on both engines, wmom/wmedian/sigma_clip/interplin/get_stats, the coordinate conversions with their unit/stomp options, the Cosmo distance methods down to the C wrappers, the Python layers of HTM lookup/match/bincount/Matcher) and for every argument variant (f8/f4/i8, native/swapped, contiguous/strided, 0-d/1-d) no store reaches a caller-owned buffer.",
-    "note": "field operations and byte-order conversions are frozen in their own checks (C07, C16), WCS under C10; records.cpp and htmc.cc are behind contracts (a store made inside those C++ files is not seen)",
+    "note": "field operations and byte-order conversions are frozen in their own checks (C07, C16), WCS under C10; the string branch of the C++ text writer (Records::WriteRows/WriteField/WriteStringAsAscii) is interpreted with the row memory frozen; the rest of records.cpp and htmc.cc are behind contracts (a store made there is not seen)",
 }
